@@ -344,6 +344,7 @@ def main(argv):
     known_hits = []
     prep_log = []
     kani_runs = []
+    cross_solver = []
     results = {}
     scratch = None
     try:
@@ -418,6 +419,31 @@ def main(argv):
                 if pr["status"] == "FAILED" and not pr["failed_checks"]:
                     inconclusive.append(f"{h['id']}: no verdict ({pr.get('tool_failure', 'FAILED without a failed check listed')})")
 
+        # ---------------- thorough tier: cross-solver pass
+        # every SUCCESSFUL harness of the full kind is re-checked with a second SAT solver (Kissat instead of
+        # CaDiCaL / MiniSat). Agreement is recorded in the evidence; a timeout of the second solver is recorded only;
+        # a harness the second solver refutes is a tool disagreement -> inconclusive, never a pass.
+        if a.tier == "thorough" and scratch and not a.only:
+            by_pkg2 = {}
+            for h in sel:
+                pr = results.get(h["id"])
+                if pr and pr["status"] == "SUCCESSFUL" and h["kind"] == "full" and h["expect"] != "fail":
+                    by_pkg2.setdefault(h["pkg"], []).append(h)
+            for pkg, hs in by_pkg2.items():
+                log(f"[kani] cross-solver pass (kissat) for {pkg}: {len(hs)} harness(es)")
+                r2 = run_kani(scratch, pkg, hs, 4 * 3600, 1800, extra=["--solver", "kissat"])
+                kani_runs.append({"pkg": pkg, "cmd": " ".join(r2["cmd"][:12]) + " ... --solver kissat", "rc": r2["rc"], "wall_s": round(r2["wall"], 1)})
+                parsed2 = parse_kani(r2["out"], hs) if not compile_failed(r2["out"]) else {}
+                for h in hs:
+                    p2 = parsed2.get(h["full"])
+                    if p2 is None or p2["status"] == "UNKNOWN" or (p2["status"] == "FAILED" and not p2["failed_checks"]):
+                        cross_solver.append({"id": h["id"], "kissat": "no verdict (timeout / memory)"})
+                    elif p2["status"] == "SUCCESSFUL":
+                        cross_solver.append({"id": h["id"], "kissat": "agrees", "kissat_s": p2["time"]})
+                    else:
+                        cross_solver.append({"id": h["id"], "kissat": "DISAGREES", "failed": [c["desc"] for c in p2["failed_checks"]][:5]})
+                        inconclusive.append(f"{h['id']}: solver disagreement (CaDiCaL/MiniSat: SUCCESSFUL, Kissat: FAILED)")
+
         # ---------------- verus
         vres = None
         if vunits:
@@ -483,7 +509,7 @@ def main(argv):
 
         # ---------------- evidence
         write_evidence(prop, a.tier, seed, sel, results, vres, prep_log, kani_runs, violations, known_hits,
-                       inconclusive, time.time() - t_start)
+                       inconclusive, time.time() - t_start, cross_solver)
         for m in inconclusive:
             log("INCONCLUSIVE: " + m)
         if violations:
@@ -505,7 +531,7 @@ def git_head():
         return ""
 
 
-def write_evidence(prop, tier, seed, sel, results, vres, prep_log, kani_runs, violations, known_hits, inconclusive, wall):
+def write_evidence(prop, tier, seed, sel, results, vres, prep_log, kani_runs, violations, known_hits, inconclusive, wall, cross_solver=None):
     obligations = 0
     discharged = 0
     harness_rows = []
@@ -569,7 +595,7 @@ def write_evidence(prop, tier, seed, sel, results, vres, prep_log, kani_runs, vi
         "coverage": {
             "obligations": obligations,
             "discharged": discharged,
-            "checker_cmd": "cargo kani -p <pkg> -Z stubbing -Z function-contracts --output-format=terse -j N --exact --harness <...>  (CBMC 6.11, MiniSat) ; verus <unit>.rs --output-json --time (Z3)",
+            "checker_cmd": "cargo kani -p <pkg> -Z stubbing -Z function-contracts --output-format=terse -j N --exact --harness <...>  (CBMC 6.11; CaDiCaL by default, MiniSat where the harness says #[kani::solver(minisat)]; thorough tier: second pass with --solver kissat) ; verus <unit>.rs --output-json --time (Z3)",
             "trusted_base": trusted,
             "samples": samples,
             "functions_under_contract": sorted(fns),
@@ -577,9 +603,10 @@ def write_evidence(prop, tier, seed, sel, results, vres, prep_log, kani_runs, vi
             "verus_units": vrows,
             "bounded_stand_ins_not_counted": bounded,
             "solver_time_s": round(solver_s, 1),
-            "back_ends": ["kani 0.68.0 / cbmc 6.11.0 (minisat)"] + (["verus 0.2026.09.13 / z3"] if vres else []),
+            "back_ends": ["kani 0.68.0 / cbmc 6.11.0 (cadical; minisat where annotated" + ("; kissat cross-check" if cross_solver else "") + ")"] + (["verus 0.2026.09.13 / z3"] if vres else []),
             "preparation_edits": prep_log,
             "kani_runs": kani_runs,
+            "cross_solver_pass": cross_solver or [],
             "known_findings_reported": [{"obligation": hid, "check": d, "finding": f["id"]} for hid, d, f in known_hits],
             "inconclusive": inconclusive,
             "repo_head": git_head(),
